@@ -77,6 +77,7 @@ type c09Case struct {
 	Encrypt   bool    `json:"encrypt"`
 	Members   int     `json:"members"`
 	OpenQuery bool    `json:"open_query"`
+	OpenNoAck bool    `json:"open_query_no_ack,omitempty"` // the open query did not ask for acks (its ack stream and bookkeeping do not exist)
 	MergeErr  bool    `json:"merge_err"`
 	Resolve   bool    `json:"resolve"`
 	RespLimit int     `json:"resp_limit"`
@@ -620,6 +621,7 @@ func genC09(t *rapid.T) c09Case {
 		Encrypt:   rapid.IntRange(0, 3).Draw(t, "encrypt") > 0,
 		Members:   rapid.IntRange(0, 4).Draw(t, "members"),
 		OpenQuery: rapid.Bool().Draw(t, "open_query"),
+		OpenNoAck: rapid.Bool().Draw(t, "open_query_no_ack"),
 		MergeErr:  rapid.IntRange(0, 3).Draw(t, "merge_err") == 0,
 		Resolve:   rapid.IntRange(0, 3).Draw(t, "resolve") == 0,
 		RespLimit: rapid.SampledFrom([]int{1024, 1024, 0, 1, 60, 200}).Draw(t, "resp_limit"),
@@ -709,7 +711,7 @@ func newC09H(c *c09Case) (*c09H, error) {
 		h.n.EventsD.NotifyJoin(node.MLNode(fmt.Sprintf("m%d", i), fmt.Sprintf("10.0.0.%d", i+1), 7946, append([]byte{serf.VerifTagMagicByte}, meta...), 5, 5))
 	}
 	if c.OpenQuery {
-		h.open, _ = h.n.Serf.Query("harness-open", []byte("x"), &serf.QueryParam{RequestAck: true, Timeout: time.Hour})
+		h.open, _ = h.n.Serf.Query("harness-open", []byte("x"), &serf.QueryParam{RequestAck: !c.OpenNoAck, Timeout: time.Hour})
 	}
 	h.n.Drain(node.Settle)
 	h.nw.Packets()
